@@ -129,7 +129,9 @@ def run_scenario(ctx, sid, spec, timeout):
     d = os.path.join(ctx.scratch_base, "c20", sid)
     home = os.path.join(d, "home")
     os.makedirs(home)
-    json.dump({"network_config_file": os.path.join(d, "network.json")}, open(os.path.join(home, ".simulaqron.json"), "w"))
+    user = {"network_config_file": os.path.join(d, "network.json")}
+    user.update(spec.get("user_settings", {}))          # per-scenario settings through the documented user override file
+    json.dump(user, open(os.path.join(home, ".simulaqron.json"), "w"))
     json.dump(spec, open(os.path.join(d, "spec.json"), "w"))
     outp = os.path.join(d, "out.json")
     errf = open(os.path.join(d, "stderr.txt"), "w")
@@ -198,7 +200,7 @@ def cycle(rng, n, wait, program=True, epr=True):
     return st
 
 
-def stagger_spec(ports, rng, n, with_qnodeos):
+def stagger_spec(ports, rng, n, with_qnodeos, long_wait=False):
     nodes = NAMES[:n]
     order = [("vnode", x) for x in nodes]
     rng.shuffle(order)
@@ -210,6 +212,8 @@ def stagger_spec(ports, rng, n, with_qnodeos):
     for kind, x in order:
         # gaps longer than two retry intervals (2 x 0.5 s) after a virtual node: earlier nodes are refused and retry in between
         gap = round(rng.uniform(1.3, 2.0), 2) if kind == "vnode" else round(rng.uniform(0.2, 0.6), 2)
+        if long_wait and kind == "vnode" and not any(s_["kind"] == "vnode" for s_ in steps):
+            gap = round(rng.uniform(3.5, 4.5), 2)     # the first virtual node is refused for a long time (>= 70 retry rounds at 0.05 s)
         steps.append({"op": "launch", "kind": kind, "node": x, "gap": gap})
     steps.append({"op": "settle"})
     steps.append({"op": "program"})
@@ -217,7 +221,10 @@ def stagger_spec(ports, rng, n, with_qnodeos):
         a, b = rng.sample(nodes, 2)
         steps.append({"op": "epr", "pair": [a, b], "number": 1})
     steps.append({"op": "terminate"})
-    return {"kind": "stagger", "name": "default", "nodes": nodes, "ports": ports.pool(3 * n + 6), "steps": steps, "limits": LIMITS}
+    spec = {"kind": "stagger", "name": "default", "nodes": nodes, "ports": ports.pool(3 * n + 6), "steps": steps, "limits": LIMITS}
+    if long_wait:
+        spec["user_settings"] = {"conn_retry_time": 0.05}
+    return spec
 
 
 def random_history(rng, n):
@@ -253,13 +260,16 @@ def build_scenarios(ctx, ports):
     # 1 node: wait, then restart without waiting
     sc.append(("net1", net_spec(ports, 1, cycle(rng, 1, True) + cycle(rng, 1, False))))
     # 2 nodes: no waiting first; programs and pairs on both incarnations
-    sc.append(("net2", net_spec(ports, 2, cycle(rng, 2, False) + cycle(rng, 2, True))))
+    # (the first start() is issued twice: the second call must leave the processes that are already up alone)
+    sc.append(("net2", net_spec(ports, 2, [{"op": "start", "wait": False}] + cycle(rng, 2, False) + cycle(rng, 2, True))))
     # 3 nodes: wait; stop; a racing stop right after a start that does not wait; start again; then a second Network object (new=False)
     sc.append(("net3", net_spec(ports, 3, cycle(rng, 3, True) + [{"op": "start", "wait": False}, {"op": "stop"}]
                                 + cycle(rng, 3, rng.choice([True, False]), program=False)
                                 + [{"op": "reopen"}] + cycle(rng, 3, True, epr=False))))
     # staggered start of 3 nodes, all six processes in random order
     sc.append(("stag3", stagger_spec(ports, rng, 3, True)))
+    # a node that is up long before its peers: many refused attempts (fast retry interval through the user settings file) before the first success
+    sc.append(("stagwait3", stagger_spec(ports, rng, 3, False, long_wait=True)))
     if ctx.tier == "thorough":
         sc.append(("net4", net_spec(ports, 4, cycle(rng, 4, False) + cycle(rng, 4, True) + cycle(rng, 4, False, program=False))))
         sc.append(("net5", net_spec(ports, 5, cycle(rng, 5, True) + [{"op": "start", "wait": False}, {"op": "sleep", "s": 0.4}, {"op": "stop"}]
